@@ -226,7 +226,7 @@ def run_hyp(desc):
                F.RAWCHARS]
     gl_bits = fn_bits + [G.GLOBSTAR, G.GLOBSTARLONG, G.MATCHBASE, G.NODIR, G.NODOTDIR, G.GLOBTILDE, G.FOLLOW]
 
-    RAW = ['!test', '!a', '-a', '!(a)', '(a)', '-(a)', '!', '-', '!*', '-*', '!!a', 'a|!b', '{!a,b}', '\\!a', '!.a', '-.a']
+    RAW = ['[(?#)]', '[x(?#)]', 'a(?#)b', '[?:]', '!test', '!a', '-a', '!(a)', '(a)', '-(a)', '!', '-', '!*', '-*', '!!a', 'a|!b', '{!a,b}', '\\!a', '!.a', '-.a']
     raw = st.sampled_from(RAW)
 
     @seed(desc['seed'])
@@ -259,7 +259,7 @@ def run_hyp(desc):
                 if pathmode:
                     names.add('x/' + g)
                     names.add(g + '/')
-        names |= {'!test', '!a', '-a', '(a)', 'test', '!', '-', '.a', '!.a', 'b'}
+        names |= {'!test', '!a', '-a', '(a)', 'test', '!', '-', '.a', '!.a', 'b', '(', '#', '?', 'x', ':'}
         names.discard('')
         plain_single = len(pats) == 1 and excl is None and not (fl & (F.SPLIT | F.BRACE | F.NEGATE | F.RAWCHARS | G.GLOBTILDE))
         asts = None
